@@ -173,7 +173,7 @@ PROPS["C08"] = {
 }
 PROPS["C09"] = {
     "lean": ["OlricModel.Props.C09"],
-    "streams": [("cluster", (14, 150), (150, 400))],
+    "streams": [("cluster", (14, 150), (150, 400)), ("repair", (10, 60), (60, 150))],
     "model": True,
     "level_text": "Theorems with `now` an arbitrary input: once every copy is absent-or-expired (eviction run or not) Get is not-found, NX is accepted, XX and Expire are not-found and change nothing (C09_invisible_after); before the deadline with agreeing copies Get returns the value (C09_visible_before); the deadline arithmetic of every option form and of Expire (C09_ttl_rules, C09_expire_keeps_value), boundary at the exact millisecond. Tied to the code with a virtual clock (time.Now rewritten in the harness build) so that deadlines are hit exactly.",
     "design_ref": "DESIGN.md §6 C09",
